@@ -14,7 +14,8 @@ EXPLANATION = (
     "same type, created > 1 s ago, expiring > 1 s ahead, for addresses same interface; effect expire := now + 1000 with "
     "a timer).  Decides that no expired/withdrawn record can feed an event; not which data over which history."
     " (f) Outside reset_ttl with a received record, expiry times only move forward: every set_expire call sits under `get_expire() > new` (set_expire_sooner otherwise). (g) In add_or_update no path stores or refreshes a record with the cache-flush bit without running the flush of its stale siblings."
-    " (h) Every comparison in a record's matches() pairs a field with the same field of the other record.")
+    " (h) Every comparison in a record's matches() pairs a field with the same field of the other record."
+    " (i) Every answer of a response on a known interface is handed to DnsCache::add_or_update, whatever is_for_us says (TTL refresh, goodbye and cache-flush of names already cached).")
 UNDECIDED = ["that what is in the cache is what was received in which order ('last advertised' over histories)",
              "interface tagging across multi-interface merges (value-level)"]
 
